@@ -513,3 +513,45 @@ Fixpoint sh_run (members : list Z) (shared : list cpx) (evs : list ev) : list ob
   | [] => []
   | e :: r => let '(s1, o1) := sh_step members shared e in o1 ++ sh_run members s1 r
   end.
+
+(* ---------------------------------------------------------------- connection histories on ONE transport object *)
+(* readPacket keeps nothing between calls (size and data are locals of readPacket/_readData), disconnect()/connect() replace the
+   socket: the transport's receive state IS the socket.  TRead = readPacket (an exception of recv = the scripted socket running
+   dry, EndOfStream: what was read of the unfinished frame is dropped with the call), TReconnect s = disconnect(); connect()
+   to a socket that will deliver s. *)
+Inductive tev := TRead | TReconnect (s : sock).
+Fixpoint t_run (s : sock) (evs : list tev) : list (res cpx) :=
+  match evs with
+  | [] => []
+  | TRead :: r => let '(x, s1) := read_packet s in x :: t_run s1 r
+  | TReconnect s2 :: r => t_run s2 r
+  end.
+
+(* a reader that keeps the unfinished frame (length once known, bytes so far) in the transport object, so that a later
+   readPacket resumes it — and that does not forget it on disconnect()/connect() *)
+Fixpoint read_data_r (need : Z) (acc : list Z) (s : sock) : list Z * bool * sock :=
+  if need <=? 0 then (acc, true, s) else
+  match s with
+  | [] => (acc, false, [])
+  | c :: rest =>
+      if zlen c <=? need then read_data_r (need - zlen c) (acc ++ c) rest
+      else (acc ++ firstn (Z.to_nat need) c, true, skipn (Z.to_nat need) c :: rest)
+  end.
+Definition rx_state := (option Z * list Z)%type.
+Definition read_packet_s (st : rx_state) (s : sock) : res cpx * sock * rx_state :=
+  let '(szo, buf) := st in
+  let step2 (size : Z) (buf : list Z) (s1 : sock) :=
+    let '(d, ok, s2) := read_data_r (size - zlen buf) buf s1 in
+    if ok then (set_wire d, s2, (None, [])) else (Exc EndOfStream, s2, (Some size, d)) in
+  match szo with
+  | Some size => step2 size buf s
+  | None =>
+      let '(h, ok, s1) := read_data_r (2 - zlen buf) buf s in
+      if ok then step2 (le_val h) [] s1 else (Exc EndOfStream, s1, (None, h))
+  end.
+Fixpoint ts_run (st : rx_state) (s : sock) (evs : list tev) : list (res cpx) :=
+  match evs with
+  | [] => []
+  | TRead :: r => let '(x, s1, st1) := read_packet_s st s in x :: ts_run st1 s1 r
+  | TReconnect s2 :: r => ts_run st s2 r
+  end.
